@@ -1,124 +1,15 @@
 /-
-  Acceptor for the function-level families (setops, arith, build, copy, image,
-  reach, canon, iter, index, io, reorder, policy, errors …).
-
-  The harness prints, per case: the domain, the forests, explicit input tables,
-  observed tables (`dd_edge::evaluate` at every assignment), the operations it
-  performed and dumps of the real node stores.  This acceptor
-    * recomputes every operation's result from the *specification* (Spec/*) on
-      the operand tables and compares it with the observed result table;
-    * runs the verified certificate checker `Dump.check` on every MT dump
-      (soundness: `Dump.check_sound`, hence `DD.canon` applies to that state);
-    * recounts incoming references from the dump;
-    * evaluates every dumped root with the model's `eval` and compares it with
-      the table the library reported for that edge;
-    * compares every observed `==` with equality of denotations.
+  Acceptor for the function-level families: record handlers.  See Driver/Base.lean
+  for the state and Driver/Ops.lean for the specification oracle.
 -/
 import MeddlyModel
+import Driver.Base
 import Driver.Ops
+import Driver.Plugins
 
 namespace Meddly
 namespace Funcs
 open Spec
-
-structure ForestInfo where
-  name : String
-  fid : Nat
-  rel : Bool
-  range : String
-  lab : String
-  rule : String
-  pol : String
-  deriving Repr, Inhabited
-
-structure NodeRec where
-  handle : Nat
-  pos : Nat
-  inCount : Nat
-  cacheCount : Nat
-  down : List (Child Val)
-  evs : List (Option Val)       -- edge values (EV forests)
-  deriving Repr, Inhabited
-
-structure St where
-  rep : Report := {}
-  caseNo : Nat := 0
-  dom : Array Nat := #[]
-  forests : List ForestInfo := []
-  /-- latest observed table of each edge: (edge, forest, table) -/
-  tables : List (String × String × Table) := []
-  firstSeen : List (String × Table) := []
-  inputs : List (String × Table) := []
-  /-- expectation registered by an `op` line for a result edge -/
-  pending : List (String × String × Except String Table) := []
-  nodes : List (String × NodeRec) := []        -- (forest, node), most recent dump only
-  roots : List (String × List (Child Val)) := []
-  scalars : List (String × String) := []
-  deriving Inhabited
-
-def St.diff (s : St) (ln : Nat) (kind detail : String) : St :=
-  { s with rep := s.rep.addDiff s!"line={ln} case={s.caseNo} kind={kind} {detail}" }
-def St.tick (s : St) : St := { s with rep := s.rep.tick }
-def St.bump (s : St) (k : String) : St := { s with rep := s.rep.bump k }
-
-def St.forest? (s : St) (n : String) : Option ForestInfo := s.forests.find? (·.name == n)
-def St.table? (s : St) (e : String) : Option (String × Table) :=
-  (s.tables.find? (·.1 == e)).map (·.2)
-def St.setTable (s : St) (e f : String) (t : Table) : St :=
-  { s with tables := (e, f, t) :: s.tables.filter (·.1 != e),
-           firstSeen := if s.firstSeen.any (·.1 == e) then s.firstSeen else (e, t) :: s.firstSeen }
-
-def parseTable (toks : List String) : Option Table :=
-  toks.foldl (fun acc t => match acc, Val.parse t with
-    | some a, some v => some (a.push v)
-    | _, _ => none) (some #[])
-
-def showTable (t : Table) : String := " ".intercalate (t.toList.map toString)
-
-def zeroOf (f : ForestInfo) : Val :=
-  if f.lab == "evp" || f.lab == "idx" then .inf
-  else if f.range == "bool" then .b false
-  else if f.range == "int" then .i 0
-  else .r 0 0
-
-def parseChild (tok : String) : Option (Child Val × Option Val) :=
-  let (c, ev) := match tok.splitOn ":" with
-    | [c, e] => (c, Val.parse e)
-    | _ => (tok, none)
-  if c.startsWith "N" then
-    (c.drop 1).toString.toNat?.map (fun h => (Child.nd h, ev))
-  else if c == "TZ" then some (Child.tm Val.inf, ev)         -- EV transparent terminal
-  else if c == "TW" then some (Child.tm (Val.i 0), ev)       -- EV omega terminal (value 0 below)
-  else if c.startsWith "T" then
-    (Val.parse (c.drop 1).toString).map (fun v => (Child.tm v, ev))
-  else none
-
-def shapeOf (s : St) (f : ForestInfo) : Shape := mkShape s.dom f.rel f.rule
-def sizesOf (s : St) (f : ForestInfo) : Array Nat := posSizes s.dom f.rel
-
-/-- table of a dumped root through the model's verified evaluator -/
-def evalRoot (s : St) (f : ForestInfo) (D : Dump Val) (c : Child Val) : Table :=
-  let S := shapeOf s f
-  let sizes := sizesOf s f
-  let n := card sizes
-  (Array.range n).map (fun idx => Dump.evalFast S (zeroOf f) D c (assignOf sizes idx))
-
-/-- EV+ evaluation on the dump: sum of edge values along the path, inf at the transparent terminal -/
-partial def evalEV (nodes : List NodeRec) (S : Shape) (k : Nat) (c : Child Val) (acc : Int) (a : Assign) : Val :=
-  match c with
-  | .tm .inf => .inf
-  | .tm _ => .i acc
-  | .nd h =>
-    match nodes.find? (·.handle == h) with
-    | none => .inf
-    | some n =>
-      if k == 0 then .inf
-      else if n.pos == k then
-        let i := a k
-        let ev := match n.evs.getD i none with | some (.i v) => v | _ => 0
-        evalEV nodes S (k-1) (n.down.getD i (.tm .inf)) (acc + ev) a
-      else if S.mode k == .ident && a k != a (k+1) then .inf
-      else evalEV nodes S (k-1) c acc a
 
 def audit (s : St) (ln : Nat) (fname : String) : St := Id.run do
   let some f := s.forest? fname | return s.diff ln "audit" s!"unknown-forest {fname}"
@@ -255,7 +146,7 @@ def stepLine (s : St) (ln : Nat) (line : String) : St := Id.run do
       return s.diff ln "op" s!"unknown-operand in {line}"
     else
       let ats := argTabs.filterMap id
-      let exp := Ops.spec s.dom (fun n => (s.forest? n).map (fun f => (f.rel, f.range, f.lab))) opname ats s.scalars
+      let exp := Plugins.spec s.dom s.kindOf opname ats s.scalars
       match exp with
       | .error e =>
         if e.startsWith "SPEC-UNKNOWN" then return s.diff ln "op" s!"no-spec-for {opname}"
@@ -274,7 +165,7 @@ def stepLine (s : St) (ln : Nat) (line : String) : St := Id.run do
     let argTabs := args.map (fun a => s.table? a)
     if argTabs.any Option.isNone then return s.diff ln "err" s!"unknown-operand in {line}"
     let ats := argTabs.filterMap id
-    let exp := Ops.spec s.dom (fun n => (s.forest? n).map (fun f => (f.rel, f.range, f.lab))) opname ats s.scalars
+    let exp := Plugins.spec s.dom s.kindOf opname ats s.scalars
     let s := s.tick
     match exp with
     | .error e =>
@@ -323,7 +214,10 @@ def stepLine (s : St) (ln : Nat) (line : String) : St := Id.run do
     -- generic scalar observation: expect <what> <expected> <got>
     let s := (s.tick).bump s!"expect.{what}"
     if a == b then return s else return s.diff ln what s!"expected={a} got={b}"
-  | k :: _ => return s.diff ln "unknown-record" k
+  | k :: _ =>
+    match Plugins.step s ln toks with
+    | some s' => return s'
+    | none => return s.diff ln "unknown-record" k
 
 def accept (lines : Array String) : Report := Id.run do
   let mut s : St := {}
